@@ -1,6 +1,6 @@
 (* C19 -- time-sampling diagnostics of thejoker/samples_analysis.py over exact rationals.  No proofs here. *)
 From Coq Require Import QArith Qround ZArith List Bool Arith.
-From TJ Require Import Base.Corr.
+From TJ Require Import Base.Corr Base.XQ Base.ArgMax.
 Import ListNotations.
 Open Scope Q_scope.
 
@@ -51,13 +51,6 @@ Definition periods_spanned (P : Q) (ts : list Q) : Q :=
   | t0 :: _ => (qmaxl t0 ts - qminl t0 ts) / P
   end.
 
-(* MAP_sample: index of the first maximum of ln_prior + ln_likelihood (numpy argmax) *)
-Fixpoint argmax_from (k : nat) (best : nat) (bv : Q) (l : list Q) : nat :=
-  match l with
-  | [] => best
-  | x :: r => if Qle_bool x bv then argmax_from (S k) best bv r else argmax_from (S k) k x r
-  end.
-Definition argmax (l : list Q) : nat :=
-  match l with [] => O | x :: r => argmax_from 1 0 x r end.
-Definition map_index (lnprior lnlike : list Q) : nat :=
-  argmax (map (fun p => fst p + snd p) (combine lnprior lnlike)).
+(* MAP_sample: index of the first maximum of ln_prior + ln_likelihood (numpy argmax; -inf entries allowed) *)
+Definition map_index (lnprior lnlike : list XQ) : nat :=
+  gargmax xq_leb (map (fun p => xq_add (fst p) (snd p)) (combine lnprior lnlike)).
